@@ -87,12 +87,14 @@ Definition parse_pspec_args (args : list sexp) : option pspec :=
   | _ => None
   end.
 
-(* (B len auto enc pref) *)
+(* (B len auto enc pref); field.NewBitmap / Bitmap.Reset (field/bitmap.go): a spec whose Length is 0 means the default
+   block of 8 bytes - every use of the block size, the message-level capacity check of a fixed bitmap included, goes
+   through this length (seeded change C05-i read Spec.Length itself) *)
 Definition parse_bmspec_args (args : list sexp) : option bmspec :=
   match args with
   | [b; a; e; p] =>
       match as_int b, as_bool a, parse_encoder e, parse_prefixer p with
-      | Some b, Some a, Some e, Some p => Some {| bm_len := b; bm_auto := a; bm_enc := e; bm_pref := p |}
+      | Some b, Some a, Some e, Some p => Some {| bm_len := (if b =? 0 then 8 else b); bm_auto := a; bm_enc := e; bm_pref := p |}
       | _, _, _, _ => None
       end
   | _ => None
